@@ -572,6 +572,9 @@ class Engine:
         # a is SV
         if not sb and isinstance(b, str) and a.ty == TChar:
             return a.e == ord(b) if len(b) == 1 else False
+        if sa and sb and {a.ty, b.ty} == {TChar, TStr}:
+            c, s_ = (a, b) if a.ty == TChar else (b, a)
+            return z3.And(z3.Length(s_.e) == 1, z3.StrToCode(s_.e) == c.e)
         if not sb and isinstance(b, str) and a.ty == TCStr:
             return z3.And(TCStr.len(a.e) == len(b), *[TCStr.at(a.e, i) == ord(ch) for i, ch in enumerate(b)])
         if sa and sb and {a.ty, b.ty} == {TChar, TCStr}:
@@ -672,6 +675,9 @@ class Engine:
         except KeyError:
             if node.id in self.builtins:
                 return self.builtins[node.id]
+            fb = getattr(self, 'spec_fallback', None)
+            if self.spec and fb is not None and fb.has(node.id):
+                return fb.lookup(node.id)
             if self.spec:
                 raise EngineError('unknown name %r in spec' % node.id)
             if env.has('__locals__') and node.id in env.lookup('__locals__'):
@@ -1375,6 +1381,15 @@ class Engine:
         for name in sorted(body_names - tnames):
             if name in env.vars:
                 env.vars[name] = self.havoc_value(env.vars[name], spec.locals.get(name), name)
+        # the loop variable: at an arbitrary iteration its value before the assignment is that of the previous
+        # element (unknown here), on exit it is the last element or, for an empty sequence, the value before the loop
+        pre_target = {name: env.vars[name] for name in tnames if name in env.vars}
+        if which == 'iter':
+            for name in sorted(pre_target):
+                try:
+                    env.vars[name] = self.havoc_value(env.vars[name], spec.locals.get(name), name)
+                except EngineError:
+                    del env.vars[name]
         for m in spec.modifies:
             self.havoc_path(m, env)
         if which == 'iter':
